@@ -283,16 +283,16 @@ def check_C20(ctx):
         'the engine\'s configuration is read from the unexported field EngineFacade.cfg by reflection, and seen from outside as the WAL directory in use',
     ]
     # 1. the specification satisfies the property (exhaustive, both +Inf policies)
-    tlc_mc(ctx, 'MC_Config', 'MC_Config_fields.cfg', timeout=280, workers=min(8, NCPU))
-    tlc_mc(ctx, 'MC_Config', 'MC_Config_life.cfg' if quick else 'MC_Config_life_choose.cfg', timeout=280 if quick else 1500)
+    tlc_mc(ctx, 'MC_Config', 'MC_Config_fields.cfg', timeout=900, workers=min(8, NCPU))
+    tlc_mc(ctx, 'MC_Config', 'MC_Config_life.cfg' if quick else 'MC_Config_life_choose.cfg', timeout=900 if quick else 1500)
 
     # 2. behaviours
     probe = json.loads(ctx.run_kvh(['config', '-probe']).stdout.strip().splitlines()[-1])
     accept_inf = bool(probe['accept_inf'])
     ctx.notes['validate_accepts_plus_inf'] = accept_inf
-    fields = gen_exhaustive(ctx, 'GEN_Config_fields.cfg' if quick else 'GEN_Config_fields3.cfg', timeout=280 if quick else 1500)
+    fields = gen_exhaustive(ctx, 'GEN_Config_fields.cfg' if quick else 'GEN_Config_fields3.cfg', timeout=900 if quick else 1500)
     damage = gen_exhaustive(ctx, 'GEN_Config_damage.cfg')
-    life = tlc_sim(ctx, 'GEN_Config', 'GEN_Config_life.cfg', 300 if quick else 8000, 80, ctx.seed * 13 + 5, timeout=280 if quick else 1200,
+    life = tlc_sim(ctx, 'GEN_Config', 'GEN_Config_life.cfg', 300 if quick else 8000, 80, ctx.seed * 13 + 5, timeout=900 if quick else 1200,
                    tag='gen-life')
     n_all = len(fields) + len(damage) + len(life)
     ctx._c20_siblings = {(json.dumps(b[0]['cfg'], sort_keys=True), b[0].get('pol')): b for b in fields if uses_inf(b)}
